@@ -777,7 +777,7 @@ func (g *G) Steps(label string, maxSteps int) []Step {
 		case patAt >= 0 && i == patAt:
 			forced = "with"
 		case patAt >= 0 && i == patAt+1:
-			forced = rapid.SampledFrom([]string{"level", "sample", "hook"}).Draw(t, label+".updcopy")
+			forced = rapid.SampledFrom([]string{"level", "sample", "hook", "viactx"}).Draw(t, label+".updcopy")
 			if g.cfg.NoHooks && forced == "hook" {
 				forced = "level"
 			}
@@ -806,6 +806,9 @@ func (g *G) Steps(label string, maxSteps int) []Step {
 			parent = f
 		}
 		kinds := []string{"with", "with", "with", "level", "output", "sample"}
+		if g.cfg.Tree {
+			kinds = append(kinds, "viactx")
+		}
 		if !g.cfg.NoHooks {
 			kinds = append(kinds, "hook", "hook")
 		}
@@ -838,6 +841,8 @@ func (g *G) Steps(label string, maxSteps int) []Step {
 			}
 		case "level":
 			st.Level = rapid.SampledFrom([]int{-1, -1, 0, 0, 1, -5, 3, 7, 7, 6, 5}).Draw(t, label+".lvl")
+		case "viactx":
+			st.N = uint32(rapid.IntRange(0, 1).Draw(t, label+".ctxhas"))
 		case "sample":
 			st.Sampler = rapid.SampledFrom([]string{"all", "all", "all", "basic"}).Draw(t, label+".smp")
 			st.N = uint32(rapid.IntRange(1, 2).Draw(t, label+".smpn"))
